@@ -46,6 +46,7 @@ class Gen:
         self.dtypes = cfg.get("dtypes", ["f8"])
         self.tracking = True
         self.fam_id = 0
+        self.idx_tensors = []  # integer tensors that were used as the index of some x[i]
         self.scope_depth = 0
         self._sink = self.ev
 
@@ -196,13 +197,17 @@ class Gen:
         if d0 == 0:
             return None
         n = self.r.randint(1, 4)
-        ia = np.array([self.r.randint(-d0, d0 - 1) for _ in range(n)], dtype=np.int64)
+        # integer index arrays of every width are legal NumPy indices (int32 from other libraries,
+        # uint8 from image code); negative entries only for signed types
+        idt = self.choice([np.int64, np.int64, np.int64, np.int32, np.int16, np.uint8])
+        lo = 0 if idt is np.uint8 else -d0
+        ia = np.array([self.r.randint(lo, d0 - 1) for _ in range(n)], dtype=idt)
         if len(shape) > 1 and self.coin(0.4):
             d1 = shape[1]
-            ib = np.array([self.r.randint(0, d1 - 1) for _ in range(n)], dtype=np.int64)
+            ib = np.array([self.r.randint(0, d1 - 1) for _ in range(n)], dtype=idt)
             return (ia, ib)
         if len(shape) > 1 and self.coin(0.3):
-            return (slice(None), np.array([self.r.randint(0, shape[1] - 1) for _ in range(n)], dtype=np.int64))
+            return (slice(None), np.array([self.r.randint(0, shape[1] - 1) for _ in range(n)], dtype=idt))
         return ia
 
     # ------------------------------------------------------------------ operands
@@ -568,6 +573,50 @@ class Gen:
         if ix is None:
             return None
         return self._emit_op("getitem", [{"t": src}], {"index": enc_index(ix)}, view_src=src)
+
+    def op_tensor_index(self, src=None):
+        """x[i] with an integer *Tensor* i as the index (a fresh one, or one already used as an index)"""
+        hs = [h for h in self.float_tensors() if self.t[h].val.ndim >= 1 and self.t[h].val.size > 0]
+        if not hs:
+            return None
+        src = src if src is not None and src in hs else self.choice(hs)
+        shape = self.t[src].val.shape
+        form = self.choice(["bare", "bare", "tuple"] + (["col"] if len(shape) > 1 else []))
+        d = shape[1] if form == "col" else shape[0]
+        if d == 0:
+            return None
+        old = [h for h in self.idx_tensors if h in self.t and self.t[h].val.size and int(np.max(np.abs(self.t[h].val))) < d]
+        if old and self.coin(0.4):
+            ih = self.choice(old)
+        else:
+            n = self.r.randint(1, 3)
+            lo = -d if self.coin(0.3) else 0
+            iv = np.array([self.r.randint(lo, d - 1) for _ in range(n)], dtype=self.choice([np.int64, np.int64, np.int32]))
+            ih = self.new_h()
+            self.emit({"k": "leaf", "out": ih, "arr": enc_arr(iv), "constant": None})
+            self.fam_id += 1
+            self.t[ih] = G(iv.copy(), True, self.epoch, self.fam_id)
+            self.idx_tensors.append(ih)
+        return self._emit_op("getitem_t", [{"t": src}, {"t": ih}], {"form": form})
+
+    def idx_mutate(self):
+        """in-place update of a tensor that an earlier x[i] used as its index"""
+        hs = [h for h in self.idx_tensors if h in self.t and self.t[h].val.size]
+        if not hs:
+            return None
+        tgt = self.choice(hs)
+        self._cow(tgt)
+        g = self.t[tgt]
+        if self.coin(0.6):
+            k = self.choice([1, -1, 2])
+            g.val += k
+            self.emit({"k": "inplace", "form": "iadd", "tgt": tgt, "args": [{"c": k}]})
+        else:
+            pos = self.r.randint(0, g.val.shape[0] - 1)
+            k = self.r.randint(0, 2)
+            g.val[pos] = k
+            self.emit({"k": "inplace", "form": "setitem", "tgt": tgt, "index": enc_index(pos), "args": [{"c": k}]})
+        return tgt
 
     # ------------------------------------------------------------------ in-place
     def _cow(self, h):
